@@ -54,8 +54,8 @@ func init() {
 			c.floor("WRONGVAR", 2)
 			c.runModFrac("MODFRAC", append(c.libPkgs()[:3:3], c.fixturePkg("s")))
 			c.floor("MODFRAC", 2)
-			c.runCanonFirst("CANON", c.libPkgs()[:1])
-			c.floor("CANON", 2)
+			c.runCanonFirstFiles("CANON", c.libPkgs()[:1], baseIn("mesh.go"))
+			c.floor("CANON", 1)
 		},
 	})
 }
